@@ -134,6 +134,18 @@ void conc_thread(void *arg) {
           std::reverse(back.begin(), back.end());
           if (back != h.rows) violation("C07", "scan_directions", "thread %d: forward and backward traversal of one iterator disagree under concurrent writes (%zu vs %zu entries)", tid, h.rows.size(), back.size());
         }
+        if (o.b == 2 && h.rc == LDB_OK) {
+          // C07 under concurrency: the iterator outlives a flush and a compaction issued by this thread (others keep
+          // writing, files it reads from are retired); a second traversal must yield exactly the same entries
+          ldb_test_compact_memtable(C.db);
+          ldb_test_compact_range(C.db, 0, NULL, NULL);
+          std::vector<std::pair<string, string>> again;
+          for (ldb_iter_first(it); ldb_iter_valid(it); ldb_iter_next(it)) { string k = str_of(ldb_iter_key(it)); if (!is_pad(k)) again.push_back({k, str_of(ldb_iter_value(it))}); }
+          int st = ldb_iter_status(it);
+          count("iterator_rescan_checks");
+          if (st != LDB_OK) violation("C07", "iter_status", "thread %d: an iterator held across a flush and a compaction reports %s", tid, rcname(st));
+          else if (again != h.rows) violation("C07", "iterator_view_changed", "thread %d: an iterator created at steps [%llu,%llu] yields %zu entries on its first traversal and %zu (or different ones) after a flush and a compaction", tid, (unsigned long long)h.inv, (unsigned long long)h.ret, h.rows.size(), again.size());
+        }
         ldb_iter_destroy(it);
         break;
       }
@@ -369,6 +381,8 @@ Plan gen_conc(uint64_t seed, const string &prop) {
   w[O_FLUSH] = sw(0.7); w[O_COMPACT_RANGE] = sw(0.7); w[O_COMPACT] = sw(0.15);
   if (prop == "C10" || prop == "C09") { w[O_PROPERTY] = sw(1); w[O_APPROX] = sw(0.7); w[O_BACKUP] = sw(0.5); }
   if (prop == "C04") { w[O_WRITE] += 8; w[O_SNAP] += 6; w[O_ITER_NEW] += 4; }
+  if (prop == "C14") { w[O_FLUSH] += 2; w[O_COMPACT_RANGE] += 3; w[O_PUT] += 6; w[O_DEL] += 4; }
+  if (prop == "C07") { w[O_ITER_NEW] += 10; w[O_PUT] += 6; w[O_DEL] += 3; w[O_WRITE] += 3; }
   if (prop == "C06") { w[O_SNAP] += 10; w[O_PUT] += 6; w[O_DEL] += 3; w[O_WRITE] += 3; }
   if (prop == "C09") { w[O_PUT] += 8; w[O_FLUSH] += 1; w[O_COMPACT_RANGE] += 1; w[O_BACKUP] += 0.5; }
   double tot = 0; for (double x : w) tot += x;
@@ -394,7 +408,7 @@ Plan gen_conc(uint64_t seed, const string &prop) {
         }
         case O_GET: o.key = r.chance(0.7) ? skey() : "g" + std::to_string(r.below(ngroups)) + "/" + std::to_string(r.below(gsize)); break;
         case O_SNAP: o.b = r.chance(prop == "C06" ? 0.6 : 0.12) ? 2 : r.chance(0.3); break;
-        case O_ITER_NEW: o.b = r.chance(0.5); break;
+        case O_ITER_NEW: o.b = r.chance((prop == "C07" || prop == "C06") ? 0.4 : 0.1) ? 2 : r.chance(0.5); break;
         case O_COMPACT_RANGE: o.a = (int)r.below(3); break;
         case O_PROPERTY: o.a = (int)r.below(4); break;
         default: break;
